@@ -108,8 +108,14 @@ def table_discipline(ctx, pfx):
     # by itself - a cookie that ignores or mixes fields lets one flow's valid ack admit another flow
     from rules.c06 import cookie_inputs
     for ok_, key_, det_, loc_ in cookie_inputs(F):
-        if key_.startswith('generate:feeds:') or key_.startswith('generate:write:'):
+        if key_.startswith('generate:feeds:') or key_.startswith('generate:write:') or key_ == 'generate:families-distinct':
             rep.check(r2, ok_, 'cookie:' + key_, det_, loc_)
+
+    # ... and the segment whose acknowledgement number is compared is the frame's own TCP segment: every layer hands
+    # the next one exactly the payload of the packet it parsed (C19-R2 hand-over instances)
+    from vlib.runner import borrow
+    for rid_, inst in borrow(ctx, 'C19', lambda r_, k_: ':hand-over:' in k_):
+        rep.check(r2, inst['ok'], inst['key'], inst['detail'], inst['loc'])
 
     # R3: no table function elsewhere
     r3 = rep.rule(pfx + ('-R3' if pfx == 'C09' else '-R6c'), 'no connection-table function is reachable from udp/icmp/arp handling, nor on any TCP arm other than PSH|ACK', floor=5)
